@@ -8,7 +8,7 @@ META = {
     "level": "proof",
     "technique": "contract-based deductive verification (pyvc): loop invariants over ghost operation log, spec functions fix_phases/check_phases, SMT; plus the same contracts evaluated on the real rule_list as a bounded cross-check",
     "text": "Proved for all rule lists, phases (arbitrary integers, so user re-assigned phases are covered), skip sets, fix_phase values and analysis outcomes: rule_list.fix performs exactly fix_phases(1..N) — enabled rules of the non-skipped phases 1..N in (phase, sub-phase, prerequisites-last) order, error-severity rules fixed, others only analysed, normalisers after phase 1, indent before phase 4 — and rule_list.check_rules analyses exactly check_phases(1..K), K = 7 with --all_phases, otherwise K = the first phase that produced an error-severity violation (nothing before it did), with the exit flag set iff such a violation was produced. The gated trace is therefore a prefix of the all-phases trace (lemma over the two contracts).",
-    "note": "Assumed (abstract contracts of virtual methods, listed in evidence): Rule.analyze touches only its own violations and appends one event; Rule._fix_violation / vhdlFile normalisers as ghost-log stubs. Analysis determinism (same rule, same file => same violations) is C06. Trusted: pyvc, SMT solvers for unsat, lemma schemas of homomorphic spec functions (validated against CPython each run).",
+    "note": "Assumed (abstract contracts of virtual methods, listed in evidence): Rule.analyze touches only its own violations and appends one event; Rule._fix_violation and set_token_indent as ghost-log stubs (the phase-1 normalisers and update_token_map are verified, their log event is ghost code). The driver apply_rules is under contract too: it passes fix_phase, skip_phase and all_phases unchanged to fix / check_rules and reports from a fresh check of the same model. Analysis determinism (same rule, same file => same violations) is C06. Trusted: pyvc, SMT solvers for unsat, lemma schemas of homomorphic spec functions (validated against CPython each run).",
 }
 
 QUALS = [
